@@ -10,6 +10,7 @@
 #include <stdint.h>
 #include "inv.h"
 extern uint64_t vk_setter_sweep(uint8_t*, uint64_t, uint8_t*, uint64_t, uint64_t, uint64_t);
+extern uint64_t vk_setter_limit(uint8_t*, uint64_t, uint8_t*, uint64_t, uint64_t, uint64_t);
 static void unpack(struct st* s, const uint8_t* o) {
   for (unsigned i = 0; i < 8; i++) s->c[i] = (uint32_t)o[4 * i] | ((uint32_t)o[4 * i + 1] << 8) | ((uint32_t)o[4 * i + 2] << 16) | ((uint32_t)o[4 * i + 3] << 24);
   s->type = o[32]; s->opaque = o[33]; s->host_type = o[34]; s->L = o[35];
@@ -21,6 +22,7 @@ int main(int argc, char** argv) {
   for (;;) { uint32_t n; if (fread(&n, 4, 1, g) != 1) break; if (n > 60) { fseek(g, n, SEEK_CUR); continue; } if (n && fread(vals[nv], 1, n, g) != n) return 2; vlen[nv++] = n; if (nv >= 4000) break; }
   static uint8_t buf[600], in[900], out[36 + 300];
   unsigned long runs = 0, bad = 0, urls = 0;
+  int limit_mode = argc > 3 && argv[3][0] == 'L';   /* C09 base case: the same sweep under limits around the sizes involved */
   for (;;) {
     uint32_t n; if (fread(&n, 4, 1, f) != 1) break;
     if (n > 500) return 2;
@@ -30,6 +32,13 @@ int main(int argc, char** argv) {
     if (urls % 3 != 0) continue;                    /* every third corpus string: keeps the run under a minute */
     for (unsigned s = 0; s < 10; s++) for (unsigned v = 0; v < nv; v++) {
       memcpy(in, buf, n); memcpy(in + n, vals[v], vlen[v]);
+      if (limit_mode) {
+        uint64_t r = vk_setter_limit(in, n + vlen[v], out, 36 + BN, n, s);
+        if (!(r >> 63)) break;
+        runs++;
+        if (r & 0xff) { bad++; if (bad <= 10) printf("SETTER-FAIL limit bits=%llu setter=%u url=%.*s value=%.*s\n", (unsigned long long)(r & 0xff), s, (int)n, buf, (int)vlen[v], vals[v]); }
+        continue;
+      }
       uint64_t r = vk_setter_sweep(in, n + vlen[v], out, 36 + BN, n, s);
       if (!(r >> 63)) break;
       runs++;
